@@ -199,7 +199,7 @@ def execute(plan, sim):
         if plan.get("kind") == "grouped":
             from checks import c07
             sim.count("shared_stream_writes")
-            data = c07.write_grouped(cfg, stmts, cfg["groups"])
+            data = c07.write_grouped(cfg, stmts, cfg["groups"], nss)
         else:
             data = nodes.serialize(cfg, plan["ops"], sim)
     except Exception as e:  # noqa: BLE001
